@@ -234,6 +234,8 @@ class Ctx:
         self.globals = []
         self.marks = []
         self.levels = [[]]
+        self.portfolio = ((1, 10000),)          # fresh-solver retries (seed, timeout ms) after an incremental 'unknown'
+        self.portfolio_cvc5 = False
         self.stats = {"checks": 0, "solver_s": 0.0, "unknown": 0}
 
     def push(self):
@@ -280,7 +282,7 @@ class Ctx:
         in fresh solver instances with other seeds, then with cvc5; only a definite answer is accepted"""
         self.stats["portfolio"] = self.stats.get("portfolio", 0) + 1
         asserts = list(self.z.assertions()) + list(extra)
-        for k, (seed, tmo) in enumerate(((1, 10000), (7, 20000), (23, 40000))):
+        for k, (seed, tmo) in enumerate(self.portfolio):
             s = z3.Solver()
             s.set("timeout", tmo)
             s.set("random_seed", seed)
@@ -291,6 +293,8 @@ class Ctx:
                 if r == z3.sat:
                     self._last_model = s.model()
                 return r
+        if not self.portfolio_cvc5:
+            return z3.unknown
         try:
             import subprocess
             s = z3.Solver()
@@ -521,6 +525,9 @@ class Executor:
         self.use_fp = True
         self.divcache = {}
         self.closure_index = {}
+        self.recursion_limits = {}      # fn-name suffix -> max simultaneously active frames (harness assumption on input shape)
+        self.active = {}
+        self.cuts = {}
         self.byname_cache = {}
         self.resolve_cache = {}
         for name, lst in fns.items():
@@ -796,6 +803,15 @@ class Executor:
         if o.startswith("copy ") or o.startswith("move "):
             return self.read_place(fr, parse_place(o[5:]))
         if o.startswith("const "):
+            m = re.search(r"::(promoted\[\d+\])$", o)
+            if m:
+                name = fr["__fn"].v + "::" + m.group(1)
+                lst = self.fns.get(name)
+                if not lst:
+                    raise Unsupported("promoted constant %s not found" % name)
+                for v in self.run(lst[0], [], 1):
+                    return v
+                raise Unsupported("promoted constant %s has no value" % name)
             v = self.const(o[6:].strip())
             if isinstance(v, Closure):
                 v.parent = fr["__fn"].v
@@ -812,6 +828,8 @@ class Executor:
             return z3.BoolVal(False)
         if c == "()":
             return Tup([])
+        if c.startswith("(") and c.endswith(")") and "," in c:
+            return Tup([self.const(x.strip()) for x in split_top(c[1:-1])])
         m = re.match(r"^(i32|u32|usize|i64|u64|isize|u8)::(MIN|MAX)$", c)
         if m:
             lo, hi = INT_RANGES[m.group(1)]
@@ -1196,8 +1214,16 @@ class Executor:
         cs = strip_turbofish(callee)
         for pat, fn, label in self.stubs:
             if pat.search(cs) or pat.search(callee):
+                g = fn(self, callee, args, ret_ty)
+                try:
+                    first = next(g)
+                except StopIteration:
+                    self.used_stubs.add(label)
+                    return iter(())
+                except NoModel:
+                    continue
                 self.used_stubs.add(label)
-                return fn(self, callee, args, ret_ty)
+                return itertools.chain([first], g)
         for pat, fn, label in self.models:
             if pat.search(cs):
                 g = fn(self, callee, args, ret_ty)
@@ -1244,6 +1270,26 @@ class Executor:
         self.stats["fn_calls"] += 1
         self.stats["max_depth"] = max(self.stats["max_depth"], depth)
         self.inlined.add(f.name)
+        for suffix, limit in self.recursion_limits.items():
+            if f.name.endswith(suffix):
+                n = self.active.get(suffix, 0)
+                if n >= limit:
+                    # a stated assumption of the harness on the shape of its (lazily generated) input
+                    self.cuts[suffix] = self.cuts.get(suffix, 0) + 1
+                    return
+                tput(self.active, suffix, n + 1)
+                try:
+                    fr_ = self._frame(f, args)
+                    yield from self.run_block(f, fr_, "bb0", depth, {})
+                finally:
+                    pass
+                tput(self.active, suffix, n)
+                return
+        fr = self._frame(f, args)
+        visits = {}
+        yield from self.run_block(f, fr, "bb0", depth, visits)
+
+    def _frame(self, f, args):
         fr = {name: Cell(None, name) for name in f.locals}
         fr["_0"] = fr.get("_0") or Cell(None, "_0")
         fr["__fn"] = Cell(f.name)
@@ -1251,8 +1297,7 @@ class Executor:
             raise Unsupported("arity mismatch calling %s: %d args for %d params" % (f.name, len(args), len(f.params)))
         for (pname, _), a in zip(f.params, args):
             fr[pname].v = a
-        visits = {}
-        yield from self.run_block(f, fr, "bb0", depth, visits)
+        return fr
 
     def run_block(self, f, fr, bb, depth, visits):
         while True:
